@@ -48,16 +48,22 @@ def check(run):
     B = bi.node
     p = q.param_names(B)[1]
     mk = [c for c in q.calls(B) if dotted(c.func) == 'InternalEventListener']
-    run.check(len(mk) == 2, r, bi.short, 'one wrapper per kind of target', 'found %d constructions' % len(mk), B)
+    run.check(1 <= len(mk) <= 2, r, bi.short, 'wrapper construction site(s)', 'found %d constructions' % len(mk), B)
+    seen = set()
     for c in mk:
-        at = guard_atoms(c)
-        a0 = q.unparse(c.args[0]) if c.args else None
-        if ('truthy', 'isinstance(%s, Interpreter)' % p, '') in at:
-            run.check(a0 == p + '.queue', r, bi.short, 'interpreter target -> its queue method', 'wraps %s' % a0, c)
-        elif ('falsy', 'isinstance(%s, Interpreter)' % p, '') in at:
-            run.check(a0 == p, r, bi.short, 'callable target -> the callable', 'wraps %s' % a0, c)
-        else:
-            run.fail(r, bi.short, 'wrapper construction under %s' % at, 'unrecognised condition', c)
+        a0 = c.args[0] if c.args else None
+        for v, st_ in q.alternatives(B, a0) if a0 is not None else []:
+            at = guard_atoms(st_ if st_ is not None else c)
+            txt = q.unparse(v)
+            if ('truthy', 'isinstance(%s, Interpreter)' % p, '') in at:
+                seen.add('interp')
+                run.check(txt == p + '.queue', r, bi.short, 'interpreter target -> its queue method', 'wraps %s' % txt, c)
+            elif ('falsy', 'isinstance(%s, Interpreter)' % p, '') in at:
+                seen.add('callable')
+                run.check(txt == p, r, bi.short, 'callable target -> the callable', 'wraps %s' % txt, c)
+            else:
+                run.fail(r, bi.short, 'wrapper construction under %s' % at, 'unrecognised condition', c)
+    run.check(seen == {'interp', 'callable'}, r, bi.short, 'both kinds of target are wrapped', 'kinds handled: %s' % sorted(seen), B)
     at = q.calls_to(run, B, {'Interpreter.attach'})
     rets = [n for n in q.walk(B, False) if isinstance(n, ast.Return)]
     lv = None
